@@ -445,6 +445,9 @@ func runtimeOracle(o *vh.Out, b built, stdout string) {
 
 func main() {
 	f := vh.ParseFlags()
+	if v := os.Getenv("C09_ONLY"); v != "" {
+		forceKind, _ = strconv.Atoi(v)
+	}
 	os.MkdirAll(f.Out, 0o755)
 	abs, _ := filepath.Abs(f.Out)
 	o := vh.NewOut(f.Out)
@@ -461,6 +464,12 @@ func main() {
 			line := fmt.Sprintf("prog\t%d\t%d\t%s", seed, idx, fs[3])
 			if err != nil {
 				fmt.Println("compile error:", err)
+				for _, sf := range g.files {
+					fmt.Printf("--- %s\n", sf.name)
+					for i, l := range sf.lines {
+						fmt.Printf("%4d  %s\n", i+1, l)
+					}
+				}
 				return
 			}
 			for _, sf := range g.files {
